@@ -622,7 +622,7 @@ pub fn run(tier: Tier, seed: u64) -> i32 {
     // random real formats
     if !rep.failed() {
         let limit = tier.pick(64u64 << 20, 1u64 << 30);
-        let n = tier.pick(3000u32, 60000u32);
+        let n = tier.pick(9000u32, 60000u32);
         let b = run::run_random("real_formats_generated_options", seed, n, "format", || run::boxed(req_strategy().prop_filter("affordable", move |r| affordable(r, limit))), |r: &FmtReq| eval_real(r));
         rep.add(b);
     }
